@@ -14,6 +14,8 @@ use vcore::vsched::{self, body, fail, Cfg, Scenario, Verdict};
 
 static META: Metadata<'static> = Metadata::new("t", Level::INFO, None);
 const T: u64 = 1000; // idle timeout in clock ticks (ns)
+/// the idle timeout the direct part runs with (T by default; parts with a zero and a one-tick timeout set it)
+static TICKS: std::sync::atomic::AtomicU64 = std::sync::atomic::AtomicU64::new(T);
 
 #[derive(Clone, Copy, Debug, PartialEq, Eq, PartialOrd, Ord, Hash)]
 enum K {
@@ -111,7 +113,7 @@ fn observe_model(m: &mut MState, now: u64, covered: bool) -> Option<bool> {
             Some(true)
         }
         Some((g, t)) if g == m.gen => {
-            if now - t > T {
+            if now - t > TICKS.load(std::sync::atomic::Ordering::Relaxed) {
                 *m = MState::default();
                 Some(false)
             } else {
@@ -139,7 +141,7 @@ fn direct(ctx: &Ctx, res: &mut PartResult, depth: usize, mask_i: usize, timeout:
         seq.extend_from_slice(tail);
         let off = first.is_some() as usize;
         let (clock, mock) = Clock::mock();
-        let r = Real { reg: Registry::new(GenerationalStorage::new(AtomicStorage)), rec: Recency::new(clock, mask, if timeout { Some(Duration::from_nanos(T)) } else { None }), mock };
+        let r = Real { reg: Registry::new(GenerationalStorage::new(AtomicStorage)), rec: Recency::new(clock, mask, if timeout { Some(Duration::from_nanos(TICKS.load(std::sync::atomic::Ordering::Relaxed))) } else { None }), mock };
         let mut ms: Vec<MState> = vec![MState::default(); 4];
         let mut now = 0u64;
         // every sequence is followed by one more observation of everything (what the next scrape would do)
@@ -500,6 +502,12 @@ fn parts(ctx: &Ctx) -> Vec<PartSpec> {
         }
         v.push(PartSpec::new(&format!("prometheus-mask{}", mi), json!({"prom": true, "mask": mi, "depth": if ctx.quick() { 6 } else { 8 }})).budget(if ctx.quick() { 150.0 } else { 2400.0 }));
     }
+    // the timeout itself is a value like any other: zero (every covered metric found unchanged at a later observation
+    // is dropped) and one tick
+    for (mi, ticks) in [(3usize, 0u64), (1, 0), (3, 1)] {
+        let d = if ctx.quick() { 5 } else { 6 };
+        v.push(PartSpec::new(&format!("direct-d{}-mask{}-timeout-{}-ticks", d, mi, ticks), json!({"depth": d, "mask": mi, "timeout": true, "ticks": ticks})).budget(if ctx.quick() { 150.0 } else { 2400.0 }));
+    }
     v.push(PartSpec::new("prometheus-mask3-global-label", json!({"prom": true, "mask": 3, "global": true, "depth": if ctx.quick() { 5 } else { 7 }})).budget(if ctx.quick() { 150.0 } else { 2400.0 }));
     for (ki, kn) in ["counter", "gauge", "histogram"].iter().enumerate() {
         let pb = if ctx.quick() { 2 } else { 4 };
@@ -518,6 +526,7 @@ fn run(ctx: &Ctx, spec: &PartSpec) -> PartResult {
     } else if spec.arg["prom"].as_bool() == Some(true) {
         prom(ctx, &mut res, depth, mask, spec.arg["global"].as_bool().unwrap_or(false));
     } else {
+        TICKS.store(spec.arg["ticks"].as_u64().unwrap_or(T), std::sync::atomic::Ordering::Relaxed);
         direct(ctx, &mut res, depth, mask, spec.arg["timeout"].as_bool().unwrap_or(true), spec.arg["first"].as_u64().map(|x| x as usize));
     }
     res
@@ -527,7 +536,7 @@ fn main() {
     driver::main(CheckDef {
         prop: "C12",
         level: "model_checking",
-        rule: "direct: every sequence of the stated depth over 13 operations (update of 4 metrics incl. the same key under three kinds and a gauge update leaving the value unchanged; clock advance by 1, T-1, T, T+1 ticks; observe one metric; observe all) on the real Recency + Registry<Key, GenerationalAtomicStorage> under quanta's mock clock, for masks {NONE, COUNTER, GAUGE|HISTOGRAM, ALL} with the timeout and ALL without; via Prometheus: every sequence over {inc, set, record, advance 1/T/T+1, render} through verif_build_with_clock and the strict parser; reference per (kind,key): (generation, time of the last observation that saw a change); E1: every SC interleaving (pb-bounded) of one update (counter increment / gauge increment / histogram record through the exporter's generational handles) with an observation (clock advance + render) between two sequential observations: the racing update is reported before the metric can be dropped as idle; distinct = distinct reference states; a registration that writes nothing (get-or-create with an empty operation) for a counter and a histogram is part of the alphabet",
+        rule: "direct: every sequence of the stated depth over 13 operations (update of 4 metrics incl. the same key under three kinds and a gauge update leaving the value unchanged; clock advance by 1, T-1, T, T+1 ticks; observe one metric; observe all) on the real Recency + Registry<Key, GenerationalAtomicStorage> under quanta's mock clock, for masks {NONE, COUNTER, GAUGE|HISTOGRAM, ALL} with the timeout and ALL without, plus timeouts of zero and one tick; via Prometheus: every sequence over {inc, set, record, advance 1/T/T+1, render} through verif_build_with_clock and the strict parser; reference per (kind,key): (generation, time of the last observation that saw a change); E1: every SC interleaving (pb-bounded) of one update (counter increment / gauge increment / histogram record through the exporter's generational handles) with an observation (clock advance + render) between two sequential observations: the racing update is reported before the metric can be dropped as idle; distinct = distinct reference states; a registration that writes nothing (get-or-create with an empty operation) for a counter and a histogram is part of the alphabet",
         assumptions: &["time only advances through the mock clock", "the direct part observes a metric the way the exporters do: look the handle up, read its generation, ask should_store_*"],
         parts,
         run,
